@@ -36,6 +36,10 @@ EDITS = [
 ]
 
 
+LAST_ROOT = [None]
+ROOT_NAMES = [0, ['proj', 'site-packages', os.path.join('.venv', 'lib', 'python3.12', 'site-packages'), 'node_modules', 'tests']]
+
+
 def answer(S, project, root, req, long_lived):
     kind, src, pos = req
     fn = os.path.join(root, 'zq_buffer.py')
@@ -75,9 +79,14 @@ def apply_edit(root, edit, clock):
     os.utime(p, (clock, clock))
 
 
-def run_history(S, edits_and_requests, check=None, stats=None):
+def run_history(S, edits_and_requests, check=None, stats=None, root_name=None):
     """-> first differing step (index, request, long-lived answer, fresh answer) or None"""
-    root = os.path.realpath(tempfile.mkdtemp(prefix='zq_c09s_'))
+    base = os.path.realpath(tempfile.mkdtemp(prefix='zq_c09s_'))
+    # every other history lives in a directory called like an installation directory (nothing may depend on what a root is called)
+    ROOT_NAMES[0] = (ROOT_NAMES[0] + 1) % len(ROOT_NAMES[1])
+    root = os.path.join(base, root_name or ROOT_NAMES[1][ROOT_NAMES[0]])
+    LAST_ROOT[0] = os.path.relpath(root, base)
+    os.makedirs(root)
     try:
         apply_edit(root, ('write', 'zq_mid.py', MID), 1000)
         project = S['project'].Project([root])
@@ -96,7 +105,7 @@ def run_history(S, edits_and_requests, check=None, stats=None):
                     return i, step, a, b
         return None
     finally:
-        shutil.rmtree(root, ignore_errors=True)
+        shutil.rmtree(base, ignore_errors=True)
 
 
 def histories(rng, quick):
@@ -129,13 +138,13 @@ def run(check, S):
             if stats['failing'] <= 8:
                 i, step, a, b = r
                 check.fail('long-lived project answers differently from a fresh one after the shape of a package changed',
-                           {'kind': 'shapes', 'history': [list(x) for x in h[:i + 1]], 'long_lived': a, 'fresh': b})
+                           {'kind': 'shapes', 'root_name': LAST_ROOT[0], 'history': [list(x) for x in h[:i + 1]], 'long_lived': a, 'fresh': b})
     check.extra['package_shape_histories'] = stats
     return stats['requests']
 
 
 def replay_item(S, r):
     h = [tuple(x[:2]) + (tuple(x[2]) if isinstance(x[2], list) else x[2],) for x in r['history']]
-    res = run_history(S, h)
+    res = run_history(S, h, root_name=r.get('root_name'))
     print('package-shape history: %s' % ('still differs: %r' % (res[2:],) if res else 'agrees now'))
     return res is not None
